@@ -294,6 +294,9 @@ class Report:
             print("KNOWN-FINDING: property=%s %s [%s] (%d case(s) this run)" % (self.prop, f["what"], fid, n))
         rc = 0
         paths = []
+        import glob
+        for old in glob.glob(os.path.join(VERIF, "replays", "%s-%s-*.json" % (self.prop, self.tier))):
+            os.unlink(old)
         if self.violations:
             groups = {}
             for sig, _ in self.violations:
